@@ -16,7 +16,7 @@ ENGINE = "E-SCEN"
 TECHNIQUE = "exhaustive enumeration of (election, perturbed unit, replacement counts, estimator, outlier setting) on the real client; differential oracle between base and perturbed run, cell by cell; historical client on scratch files"
 RULE = (
     "for every perturbed unit in {outstanding-partial at 40% and at 60%, zero-baseline, unit-blocklisted, state-blocklisted, unexpected} x location "
-    "{populated county, probe-only county, probe-only state} and every replacement count in {0, 1, x1/2, x3, huge} (percent unchanged): base run vs "
+    "{populated county, probe-only county, probe-only state} and every replacement count in {0, 1, x1/2, x3, huge, x0.8, x1.4} (percent unchanged; the last two keep a reporting unit's turnout factor within the limits): base run vs "
     "perturbed run for nonparametric, gaussian and bootstrap (B in {3,10}, fixed effects on/off), outlier models off and on (24 reporting units). "
     "Oracle: every other unit row and every group not containing the unit is bit-identical (bootstrap floats: rel 1e-12); groups containing it move "
     "their counted votes by the delta and (nonparametric) pred/lower/upper by the unit's own row change. Historical clause: two historical result "
@@ -24,7 +24,7 @@ RULE = (
 )
 ASSUMPTIONS = ["percent expected vote of the perturbed unit is unchanged, so it stays below the threshold", "bootstrap float cells: relative 1e-12 (see C11)"]
 SELFCHECK_INDEX = 3
-PERT = ["zero", "one", "half", "triple", "huge"]
+PERT = ["zero", "one", "half", "triple", "huge", "p80", "p140"]  # the last two keep a reporting unit's turnout factor inside the limits
 HIST_ID = "2095-11-03_USA_G"
 
 
@@ -66,7 +66,7 @@ def describe(case):
 
 def _perturb(u, how):
     v = dict(u)
-    f = {"zero": lambda x: 0, "one": lambda x: 1, "half": lambda x: x // 2, "triple": lambda x: 3 * x, "huge": lambda x: 50 * x + 1000}[how]
+    f = {"zero": lambda x: 0, "one": lambda x: 1, "half": lambda x: x // 2, "triple": lambda x: 3 * x, "huge": lambda x: 50 * x + 1000, "p80": lambda x: x * 4 // 5, "p140": lambda x: x * 7 // 5}[how]
     v["r_dem"], v["r_gop"] = f(u["r_dem"]), f(u["r_gop"])
     v["r_turnout"] = v["r_dem"] + v["r_gop"] + f(max(0, u["r_turnout"] - u["r_dem"] - u["r_gop"]))
     return v
@@ -109,6 +109,12 @@ def _pair_case(case, cov, viol):
         probe["pev"] = 60.0
     units.append(probe)
     units.append(E.make_probe(case["seed"], 1, "nonrep0", "pop1", weights=w))
+    if st == "state_blocklisted":
+        # more fully reporting units of the blocklisted state, so that the state is more than a single-unit fixed effect
+        for k in (2, 3, 4):
+            extra = E.make_probe(case["seed"], k, "state_blocklisted", "newstate", weights=w)
+            extra["id"] = f"BBc0_s{k}"
+            units.append(extra)
     return _perturb_and_compare(case, cov, viol, units, probe, cfg, st, ("postal_code", "county_fips", "county_classification"))
 
 
